@@ -105,9 +105,42 @@ def catalogue_docs():
             yield (f"cat/{c04.SUBJECTS[si][0]}/{kinds[0].name}", qml.render(root))
 
 
+def include_docs():
+    """A binding that needs a system include (Math.max/min: <algorithm>, % on doubles: <cmath>, console.*:
+    <QtDebug>) beside every kind of grouped sibling on the same object - and nothing else pulling the include."""
+    head = ("import qmluic.QtWidgets\nQWidget {\n    QSpinBox { id: s }\n    QCheckBox { id: c }\n"
+            "    QDoubleSpinBox { id: d }\n")
+    sibs = ["font.bold: true", "font.pointSize: s.value", "font { bold: true; italic: c.checked }",
+            "sizePolicy { horizontalPolicy: QSizePolicy.Fixed; verticalPolicy: QSizePolicy.Fixed }",
+            "minimumSize { width: 1; height: 2 }", "font.bold: true; sizePolicy.horizontalStretch: s.value; minimumSize.width: 3"]
+    needs = ["minimumWidth: Math.max(s.value, 1)", "maximumWidth: Math.min(s.value, 9)", "onWindowTitleChanged: console.log(1)",
+             "windowOpacity: d.value % 2.0", "onWindowTitleChanged: { let m = Math.max(s.value, 2); s.value = m }"]
+    for i, sib in enumerate(sibs):
+        for j, need in enumerate(needs):
+            yield (f"include/{i}/{j}", head + f"    QLabel {{ {sib}; {need} }}\n}}\n")
+            yield (f"include-rev/{i}/{j}", head + f"    QLabel {{ {need}; {sib} }}\n}}\n")
+
+
+def error_docs():
+    """Documents whose diagnostics mention types: the text must not depend on the process either."""
+    head = "import qmluic.QtWidgets\nQWidget {\n    id: root\n    VObj { id: v }\n    VSub { id: w }\n"
+    exprs = ["v.sl[Qt.AlignLeft]", "v.sl[v]", "v.sl[\"a\"]", "v.sl[1.5]", "v.sl[true]", "v.sl[null]", "v.sl[VObj.M1]", "v.sl[v.f]",
+             "v.p[0]", "v.i[0]", "v.e + 1", "v.f + v.e", "v + w", "v.p == 1", "v.sl == v.p", "v.v + 1", "[v, 1]", "[1, \"a\"]",
+             "v.e ? 1 : 2", "v.take(1)", "v.done(v)", "v.done(v.e)", "v.sayMode(v.e2)", "v.sl.at(v)", "root.nosuch", "VObj.Nosuch",
+             "v.p as int", "v.e as VObj", "(v.b ? v : 1)", "(v.b ? v.sl : v.p)", "Math.max(v, w)", "Math.max(v.e, v.e2)"]
+    for i, e in enumerate(exprs):
+        yield (f"error/{i}", head + f"    QLabel {{ onWindowTitleChanged: {{ {e}; }} }}\n}}\n")
+    from checks import c05
+    for k, (cid, src) in enumerate(c05.documents("quick", for_c14=True)):
+        if k % 11 == 0:
+            yield (f"c05/{cid}", src)
+
+
 def docs_for(tier):
     docs = list(RICH)
     docs += list(catalogue_docs())
+    docs += list(include_docs())
+    docs += list(error_docs())
     docs += [(n, t) for n, t in corpus.all_seeds("quick") if n.startswith("g/")]
     ex = corpus.example_seeds()
     docs += [(n, t) for n, t in ex if "customwidget" not in n][: (4 if tier == "quick" else 20)]
